@@ -407,6 +407,82 @@ impl Body for NetCluster {
     }
 }
 
+pub struct KeyedOrderInTick {
+    tx: TxU<(u32, i32)>,
+    rx: Rx<Vec<(u32, Vec<i32>)>>,
+}
+impl Body for KeyedOrderInTick {
+    async fn body(&self, inp: &Inp) -> Trace {
+        self.tx.send_many_unordered(kvs(&inp.a));
+        let out: Vec<Vec<(u32, Vec<i32>)>> = self.rx.collect().await;
+        out.into_iter()
+            .map(|tick| keyed_tk(0, tick.into_iter().flat_map(|(k, vs)| vs.into_iter().map(move |v| (k, v))).collect()))
+            .collect()
+    }
+}
+
+pub struct TopKeyedOrder {
+    tx: TxU<(u32, i32)>,
+    rx: Rx<(u32, i32)>,
+}
+impl Body for TopKeyedOrder {
+    async fn body(&self, inp: &Inp) -> Trace {
+        self.tx.send_many_unordered(kvs(&inp.a));
+        let out: Vec<(u32, i32)> = self.rx.collect().await;
+        out.into_iter().map(|kv| keyed_tk(0, vec![kv])).collect()
+    }
+}
+
+pub struct MergeInTick {
+    txa: TxO<i32>,
+    txb: TxO<i32>,
+    rx: Rx<Vec<i32>>,
+}
+impl Body for MergeInTick {
+    async fn body(&self, inp: &Inp) -> Trace {
+        self.txa.send_many(vals(&inp.a));
+        self.txb.send_many(vals(&inp.b));
+        let out: Vec<Vec<i32>> = self.rx.collect().await;
+        out.into_iter().map(|v| flat_tk(0, v)).collect()
+    }
+}
+
+pub struct TopKeyedMerge {
+    txa: TxO<(u32, i32)>,
+    txb: TxO<(u32, i32)>,
+    rx: Rx<(u32, i32)>,
+}
+impl Body for TopKeyedMerge {
+    async fn body(&self, inp: &Inp) -> Trace {
+        self.txa.send_many(kvs(&inp.a));
+        self.txb.send_many(kvs(&inp.b));
+        let out: Vec<(u32, i32)> = self.rx.collect().await;
+        out.into_iter().map(|kv| keyed_tk(0, vec![kv])).collect()
+    }
+}
+
+pub struct KeyedMergeInTick {
+    txa: TxO<(u32, i32)>,
+    txb: TxO<(u32, i32)>,
+    rx: Rx<Vec<(u32, i32)>>,
+}
+impl Body for KeyedMergeInTick {
+    async fn body(&self, inp: &Inp) -> Trace {
+        self.txa.send_many(kvs(&inp.a));
+        self.txb.send_many(kvs(&inp.b));
+        let out: Vec<Vec<(u32, i32)>> = self.rx.collect().await;
+        out.into_iter().map(|v| keyed_tk(0, v)).collect()
+    }
+}
+
+/// Flows used by the replay monitor only (they complete the coverage of hook types).
+/// `keyed_merge_in_tick` (inline `KeyedMergeOrderedHook`) is compiled on request only: on the
+/// shipped tree that flow shape crashes the simulator in its first tick (the hook's output
+/// receiver is already closed: `try_send(..).unwrap()` on `Closed` in
+/// `KeyedMergeOrderedHook::release_decision`, raised inside the dylib, i.e. a process abort), so it
+/// cannot be replayed; the hook itself is covered at hook level (C36/C37).
+pub const REPLAY_EXTRA_CASES: [&str; 4] = ["keyed_order_in_tick", "top_keyed_order", "merge_in_tick", "top_keyed_merge"];
+
 pub const NET_CLUSTER_SIZE: usize = 3;
 
 pub const ALL_CASES: [&str; 13] = [
@@ -503,6 +579,34 @@ pub fn build_case(name: &str) -> Box<dyn Case> {
                 compiled: flow.sim().with_cluster_size(&c, NET_CLUSTER_SIZE).compiled(),
                 ports: NetCluster { tx, rx },
             })
+        }
+        "keyed_order_in_tick" => {
+            let (tx, input) = p.sim_input::<(u32, i32), NoOrder, ExactlyOnce>();
+            let rx = flows::keyed_order_in_tick(input).sim_output();
+            Box::new(CaseImpl { compiled: flow.sim().compiled(), ports: KeyedOrderInTick { tx, rx } })
+        }
+        "top_keyed_order" => {
+            let (tx, input) = p.sim_input::<(u32, i32), NoOrder, ExactlyOnce>();
+            let rx = flows::top_keyed_order(input).sim_output();
+            Box::new(CaseImpl { compiled: flow.sim().compiled(), ports: TopKeyedOrder { tx, rx } })
+        }
+        "merge_in_tick" => {
+            let (txa, a) = p.sim_input::<i32, TotalOrder, ExactlyOnce>();
+            let (txb, b) = p.sim_input::<i32, TotalOrder, ExactlyOnce>();
+            let rx = flows::merge_in_tick(a, b).sim_output();
+            Box::new(CaseImpl { compiled: flow.sim().compiled(), ports: MergeInTick { txa, txb, rx } })
+        }
+        "top_keyed_merge" => {
+            let (txa, a) = p.sim_input::<(u32, i32), TotalOrder, ExactlyOnce>();
+            let (txb, b) = p.sim_input::<(u32, i32), TotalOrder, ExactlyOnce>();
+            let rx = flows::top_keyed_merge(a, b).sim_output();
+            Box::new(CaseImpl { compiled: flow.sim().compiled(), ports: TopKeyedMerge { txa, txb, rx } })
+        }
+        "keyed_merge_in_tick" => {
+            let (txa, a) = p.sim_input::<(u32, i32), TotalOrder, ExactlyOnce>();
+            let (txb, b) = p.sim_input::<(u32, i32), TotalOrder, ExactlyOnce>();
+            let rx = flows::keyed_merge_in_tick(a, b).sim_output();
+            Box::new(CaseImpl { compiled: flow.sim().compiled(), ports: KeyedMergeInTick { txa, txb, rx } })
         }
         other => panic!("unknown corpus flow {other}"),
     }
